@@ -321,7 +321,7 @@ def run(tier, seed):
                        "reader.Read on a regular file returns the full header unless the file is shorter",
                        "entries without code (modules with no local function): an entry cut inside its last 4 bytes is still accepted and yields the identical code-less module (C13_prefix_no_code_exact)",
                        "the hash is injective (hypothesis of the C13_key_* / C13_warm_* theorems); for binaries of different lengths the hashed string is ambiguous as a string (CacheExtP.id_pre_not_injective), the theorems speak about binaries of one length",
-                       "the checksum covers the code only: function offsets, source map, a code length of zero and the count's high bytes are NOT protected (C13_limit_* theorems); what the real runtime does with such entries is reported under part=damaged-unprotected (outside the letter of the property text, C13_DAMAGED_AS_NOTES=1 turns these into notes)",
+                       "the checksum covers the code only: function offsets, source map, a code length of zero and the count's high bytes are NOT protected (C13_limit_* theorems); what the real runtime does with such entries is reported under part=damaged-unprotected (outside the letter of the property text: printed as notes; C13_DAMAGED_AS_VIOLATIONS=1 turns them into VIOLATION lines)",
                        "debug info on/off shares the key: the entries differ in the source map only (the code is identical), whichever is written first stays"]
     proofs_ok = ck.proofs()
     if tier == "quick":
